@@ -15,6 +15,7 @@ import (
 	"sync"
 	"time"
 	"unicode/utf8"
+	"unsafe"
 )
 
 type Draw struct {
@@ -204,11 +205,14 @@ func LogInt(msg string, v int)    { Log(fmt.Sprintf("%s %d", msg, v)) }
 func LogStr(msg string, v string) { Log(fmt.Sprintf("%s %q", msg, v)) }
 
 // scheduling intrinsics: natively no-ops (replays of schedules use their own gates)
-func Yield()                       {}
-func SetTimers(on bool)            {}
+func Yield()            {}
+func SetTimers(on bool) {}
+
 // FireTimersUpTo: natively real time passes (durations are scaled down by the harness)
 func FireTimersUpTo(d time.Duration) int { time.Sleep(d + 60*time.Millisecond); return 0 }
-func FireTimers() int              { time.Sleep(1200 * time.Millisecond); return 0 } // natively: let real time pass
+func FireTimers() int                    { time.Sleep(1200 * time.Millisecond); return 0 } // natively: let real time pass
+// FireTickers: natively tickers run on real time (the harness twin calls the tick handler itself)
+func FireTickers() int { return 0 }
 func RunSpawned(match string) int {
 	if d, ok := spawnWait[match]; ok {
 		time.Sleep(d) // natively the goroutines run by themselves; give their timers time to elapse
@@ -217,13 +221,54 @@ func RunSpawned(match string) int {
 	}
 	return 0
 }
+
+// RunImmediate: run every parked goroutine now (natively they run by themselves: a short pause, shorter than any delay
+// the library sleeps before acting)
+func RunImmediate() int { time.Sleep(80 * time.Millisecond); return 0 }
+
 // RunSpawnedExcept: run every parked goroutine whose function name does not contain `match`
 func RunSpawnedExcept(match string) int { time.Sleep(1300 * time.Millisecond); return 0 }
-func DropSpawned(match string) int { return 0 }
-func NumParked(match string) int   { return 0 }
-func WaitQuiescent()               { time.Sleep(150 * time.Millisecond) } // natively: give the goroutines time to run
-func NumBlocked(match string) int  { return 0 }
-func NumLive(match string) int     { return 0 }
+func DropSpawned(match string) int      { return 0 }
+func NumParked(match string) int        { return 0 }
+func WaitQuiescent()                    { time.Sleep(150 * time.Millisecond) } // natively: give the goroutines time to run
+func NumBlocked(match string) int       { return 0 }
+func NumLive(match string) int          { return 0 }
+
+// LocksHeld: how many mutexes are still held after the call under test returned. Engine: the lockset of the calling
+// goroutine. Natively: the sync.Mutex / sync.RWMutex fields of the struct obj points to that cannot be acquired.
+func LocksHeld(obj interface{}) int {
+	v := reflect.ValueOf(obj)
+	if v.Kind() != reflect.Ptr || v.Elem().Kind() != reflect.Struct {
+		return 0
+	}
+	v = v.Elem()
+	n := 0
+	for i := 0; i < v.NumField(); i++ {
+		f := v.Field(i)
+		if !f.CanAddr() {
+			continue
+		}
+		p := unsafe.Pointer(f.UnsafeAddr())
+		switch f.Type() {
+		case reflect.TypeOf(sync.Mutex{}):
+			m := (*sync.Mutex)(p)
+			if m.TryLock() {
+				m.Unlock()
+			} else {
+				n++
+			}
+		case reflect.TypeOf(sync.RWMutex{}):
+			m := (*sync.RWMutex)(p)
+			if m.TryLock() {
+				m.Unlock()
+			} else {
+				n++
+			}
+		}
+	}
+	return n
+}
+
 func MutexHeld(m *sync.Mutex) bool {
 	if m.TryLock() {
 		m.Unlock()
@@ -231,10 +276,10 @@ func MutexHeld(m *sync.Mutex) bool {
 	}
 	return true
 }
-func ProvKind(b []byte) string          { return "" }
+func ProvKind(b []byte) string             { return "" }
 func ProvStr(b []byte, path string) string { return "<none>" }
-func StartAccessLog()                   {}
-func DumpAccesses(tag string)           {}
+func StartAccessLog()                      {}
+func DumpAccesses(tag string)              {}
 
 // Fact records a concrete fact (engine: aggregated over all paths; natively: trace line).
 func Fact(tag string, a, b, c int) { Log(fmt.Sprintf("fact %s:%d:%d:%d", tag, a, b, c)) }
